@@ -160,8 +160,15 @@ def coq_makefile():
 
 def coq_make(targets, timeout=1500, jobs=NCPU):
     """make the given .vo targets (paths relative to coq/).  Full .vo compilation."""
+    # The lock covers only Makefile + dependency-file regeneration (shared state); the target builds of
+    # different properties touch disjoint .vo files and may run concurrently.
     with flock("coqmake-" + hashlib.sha1(COQ.encode()).hexdigest()[:8]):
         coq_makefile()
+        sh(["make", ".Makefile.d"], 300, cwd=COQ)
+    rc, out = sh(["make", "-j%d" % jobs] + list(targets), timeout, cwd=COQ)
+    if rc != 0 and ("Makefile.d" in out[-2000:] or "inconsistent assumptions" in out):
+        # lost a race with a concurrent make of a shared file: retry once
+        time.sleep(2)
         rc, out = sh(["make", "-j%d" % jobs] + list(targets), timeout, cwd=COQ)
     return rc, out
 
@@ -564,11 +571,20 @@ def run_bin(path, args=(), input=None, timeout=600, env=None):
 # Known findings
 
 def load_known():
+    """known_findings.json (committed, never written at run time) plus one-entry files in known_findings.d/."""
+    out = []
     p = os.path.join(VERIF, "known_findings.json")
     try:
-        return json.load(open(p))
+        out += json.load(open(p))
     except FileNotFoundError:
-        return []
+        pass
+    d = os.path.join(VERIF, "known_findings.d")
+    if os.path.isdir(d):
+        for f in sorted(os.listdir(d)):
+            if f.endswith(".json"):
+                e = json.load(open(os.path.join(d, f)))
+                out += e if isinstance(e, list) else [e]
+    return out
 
 
 # ------------------------------------------------------------------------------------------------
